@@ -201,9 +201,13 @@ class Contract:
         src = S.find_by_qualname(self.module, self.qualname)
         names = [a.arg for a in src.node.args.posonlyargs + src.node.args.args]
         bound = {}
+        va = src.node.args.vararg
         for i, a in enumerate(args):
             if i >= len(names):
-                raise Unsupported(f"contract call {self.key}: too many positional args")
+                if va is None:
+                    raise Unsupported(f"contract call {self.key}: too many positional args")
+                bound[f"{va.arg}{i - len(names)}"] = eng.lift(a, st)  # *args: named args0, args1, ... as in _verify
+                continue
             bound[names[i]] = eng.lift(a, st)
         for k, v in kwargs.items():
             bound[k] = eng.lift(v, st)
